@@ -35,27 +35,57 @@ def instrument(ctx):
     dst = os.path.join(outdir, "storage.go")
     open(dst, "w").write(src)
     overlay[path] = dst
-    for f in ("2fa_totp.go", "2fa_u2f.go"):
+    # writes of RuntimeState fields that happen after start-up (regenerated table shared_field_writes):
+    # a parking point in front of each, taken only when the mutex is free at that moment
+    pub = {}
+    for fn, field, where in field_writes(ctx):
+        f, _, line = where.partition(":")
+        if f != "storage.go" and line.isdigit():
+            pub.setdefault(f, {})[int(line)] = field
+    for f in sorted(set(("2fa_totp.go", "2fa_u2f.go", "unseal.go")) | set(pub)):
         path = os.path.join(d, f)
         if not os.path.exists(path):
             continue
-        out, n = [], 0
-        for line in open(path).read().split("\n"):
+        out, n, npub = [], 0, 0
+        for lineno, line in enumerate(open(path).read().split("\n"), 1):
             m = re.match(r"^(\s*)[\w.]*[Mm]utex\.Lock\(\)\s*$", line)
             if m:
                 out.append(m.group(1) + (YIELD % "Lock"))
                 n += 1
+            if lineno in pub.get(f, {}):
+                m = re.match(r"^(\s*)(\w+)\.%s\b" % re.escape(pub[f][lineno]), line)
+                if m:
+                    out.append('%sverifYieldIfFree("Pub", &%s.Mutex)' % (m.group(1), m.group(2)))
+                    npub += 1
             out.append(line)
         counts[f] = n
+        if f in pub:
+            counts[f + ":published-field writes"] = "%d of %d" % (npub, len(pub[f]))
         dst = os.path.join(outdir, f)
         open(dst, "w").write("\n".join(out))
         overlay[path] = dst
     return overlay, counts
 
+def field_writes(ctx):
+    """(function, field, file:line) of the non-init rows of the regenerated shared_field_writes table"""
+    p = os.path.join(ctx.work, "gen", "Tables.v")
+    if not os.path.exists(p):
+        return []
+    txt = open(p).read()
+    i = txt.find("Definition shared_field_writes")
+    if i < 0:
+        return []
+    out = []
+    for m in re.finditer(r'\("([^"]*)"%string, "([^"]*)"%string, "([^"]*)"%string, "([^"]*)"%string, "([^"]*)"%string\);? \(\* ([^ ]+) \*\)', txt[i:txt.find("].", i)]):
+        if m.group(4) != "init":
+            out.append((m.group(1), m.group(2), m.group(6)))
+    return out
+
 def run(ctx):
     ctx.audit("Props.C16", ["c16_lock_discipline", "c16_handlers_disciplined", "c16_old_unlocked_delete_refuted", "c16_no_torn_profile",
                             "c16_spacing_atomic", "c16_segments_are_runs", "c16_lost_update_refuted", "c16_double_spend_refuted",
-                            "c16_delete_undone_refuted"])
+                            "c16_delete_undone_refuted", "c16_publication_safe", "c16_split_unseal_refuted",
+                            "c16_u2f_once_at_storage_granularity", "c16_u2f_double_spend_refuted", "c16_ssegments_are_runs"])
     gen = ctx.extract()
     files = ["kmd/common.go", "kmd/creds.go", "kmd/c16.go", os.path.join(ctx.work, "gen", "mux_gen.go")]
     overlay, counts = instrument(ctx)
@@ -69,7 +99,8 @@ def run(ctx):
     ctx.obligations.append(("race-detector: %s rounds of 24 concurrent requests" % ((result2 or {}).get("extra", {}).get("rounds", "?")),
                             result2 is not None and nrace == 0, "%d race reports" % nrace))
     if compile_gen(ctx, ("Tables.v",)):
-        ctx.gen_obligations("Obl_C16.v", ["c16_lock_table", "c16_one_mutex_per_map", "c16_table_covers_maps"])
+        ctx.gen_obligations("Obl_C16.v", ["c16_lock_table", "c16_one_mutex_per_map", "c16_table_covers_maps",
+                                          "c16_field_writes_locked", "c16_one_mutex_per_field", "c16_field_table_covers"])
     if result is not None:
         res = ctx.eval_cases(os.path.join(ctx.work, "CasesC16.v"), "CasesC16.v")
         if res is not None:
@@ -88,6 +119,21 @@ def run(ctx):
                     if i < len(lines):
                         first = lines[i]
                 ctx.broken.append(("correspondence", "c16_mismatches", {"first_mismatch": first, "indices": (mism or "")[:400]}))
+            n = res.get("c16u_ncases", "?")
+            mism = res.get("c16u_mismatches")
+            label = "unseal || key-serving requests from a sealed start, every enumerated schedule: answers of the real handlers = Model.Conc.run_seg (%s schedules)" % n
+            if mism == "[]":
+                ctx.obligations.append(("corr:" + label, True, "no mismatch"))
+            else:
+                ctx.obligations.append(("corr:" + label, False, "mismatch indices %s" % (mism or "missing")[:200]))
+                first = None
+                i = first_index(mism)
+                p = os.path.join(ctx.work, "CasesC16U.idx")
+                if i is not None and os.path.exists(p):
+                    lines = open(p).read().split("\n")
+                    if i < len(lines):
+                        first = lines[i]
+                ctx.broken.append(("correspondence", "c16u_mismatches", {"first_mismatch": first, "indices": (mism or "")[:400]}))
     ctx.assumptions = ["requests are served by one keymasterd process; several processes sharing one database are outside the model"]
     return ctx.finish("bin/build-coq; coqc Audit_Props_C16 / Obl_C16 / CasesC16 (lib/core.py); go test -overlay (instrumented storage.go) TestVerif_C16; go test -race TestVerif_C16Race",
                       COMMON_TRUSTED + TRUSTED,
